@@ -37,38 +37,41 @@ def _c13_loops(nested, man):
             " && (start == 0 || (__CPROVER_same_object(start, source->str) && start == g_last && (unsigned long)start >= (unsigned long)source->str"
             "     && (unsigned long)start - (unsigned long)source->str + 2 <= source->currentStringLength))")
     guard = {"loop_id": 0, "vars": ["i@0", "stack_depth", "temp"],
-             "invariants": "i >= 0 && (unsigned long)i <= stack_depth && !g_eq && (!(g_k < (unsigned long)i) || g_hit)",
-             "assigns": "i, temp, g_hit, g_eq, g_mhit, g_meq", "decreases": "stack_depth - (unsigned long)i"}
+             "invariants": "i >= 0 && (unsigned long)i <= stack_depth && !g_eq && (!(g_k < (unsigned long)i) || g_hit) && g_mhit == __CPROVER_loop_entry(g_mhit) && g_meq == __CPROVER_loop_entry(g_meq)",
+             "assigns": "i, temp, g_hit, g_eq, g_mhit, g_meq, g_peek_stack, g_peek_idx", "decreases": "stack_depth - (unsigned long)i"}
     mani = {"loop_id": 1, "vars": ["i@1", "manifest", "temp", "add"],
-            "invariants": "i >= 0 && (unsigned long)i <= manifest->size && (!add || !g_meq) && (!(add && g_mk < (unsigned long)i) || g_mhit)",
-            "assigns": "i, temp, add, g_hit, g_eq, g_mhit, g_meq", "decreases": "manifest->size - (unsigned long)i"}
-    if man:
-        # my_strdup (real code) calls malloc inside the marker loop, which CBMC 6.11 DFCC cannot handle under a loop contract: that loop is unwound
-        return {"mmd_transclude_source": [guard, mani]}
+            "invariants": "i >= 0 && (unsigned long)i <= manifest->size && (!add || !g_meq) && (!(add && g_mk < (unsigned long)i) || g_mhit) && g_hit == __CPROVER_loop_entry(g_hit) && g_eq == __CPROVER_loop_entry(g_eq)",
+            "assigns": "i, temp, add, g_hit, g_eq, g_mhit, g_meq, g_peek_stack, g_peek_idx", "decreases": "manifest->size - (unsigned long)i"}
     marker = {"loop_id": 2, "vars": ["source", "parse_stack", "stack_depth", "start", "stop", "last_match", "text", "file_path", "buffer", "temp", "e", "offset"],
               "invariants": inv0,
               "assigns": "start, stop, last_match, __CPROVER_object_whole(text), file_path, buffer, temp, e, offset, source->currentStringLength, __CPROVER_object_whole(g_p0), __CPROVER_object_whole(g_p1), "
-                         "g_hit, g_eq, g_mhit, g_meq, g_last, parse_stack->size, __CPROVER_object_whole(parse_stack->element)",
+                         "g_hit, g_eq, g_mhit, g_meq, g_last, g_peek_stack, g_peek_idx, parse_stack->size, __CPROVER_object_whole(parse_stack->element)",
               "decreases": "start == 0 ? 0 : 1 + source->currentStringLength - ((unsigned long)start - (unsigned long)source->str)"}
+    if man:
+        marker["vars"].append("manifest")
+        marker["invariants"] += (" && manifest->capacity == __CPROVER_loop_entry(manifest->capacity) && manifest->element == __CPROVER_loop_entry(manifest->element)"
+                                 " && manifest->size <= (unsigned long)manifest->capacity && manifest->size >= __CPROVER_loop_entry(manifest->size)"
+                                 " && g_mk < (unsigned long)manifest->capacity"
+                                 " && (g_mk >= __CPROVER_loop_entry(manifest->size) || manifest->element[g_mk] == __CPROVER_loop_entry(manifest->element[g_mk]))"
+                                 " && g_copy_next <= g_ncopies"
+                                 " && (g_mk >= manifest->size || __CPROVER_same_object(manifest->element[g_mk], g_copies))")
+        marker["assigns"] += ", manifest->size, __CPROVER_object_whole(manifest->element), g_copy_next"
     return {"mmd_transclude_source": [guard, mani, marker]}
 _C13_DBG = ["-DDSMAX=40", "-DCAPMAX=3"]
 _C13_KM = 2
 for _n, _h, _nested in (("nested", "h_nested", True), ("top", "h_top", False)):
     for _m in (False, True):
         U("c13_rec_" + _n + ("_manifest" if _m else ""), ["C13"], _h, ["C13/guard_rec.c"], ["transclude.c"], enforce="mmd_transclude_source", rec=True,
-          loops=_c13_loops(_nested, _m), lib=(), kind=("bounded" if _m else "proof"), defines=(["-DWITH_MANIFEST", "-DUNWOUND"] if _m else []) + _C13_DBG,
-          bounds=({"markers per document (marker loop unwound, no unwinding assertion)<=": _C13_KM, "stack depth, manifest size, string lengths, recursion": "unbounded (loop contracts, recursion contract)"} if _m else {}),
-          cbmc_flags=(["--unwind", str(_C13_KM + 1), "--no-unwinding-assertions"] if _m else []),
-          functions=["mmd_transclude_source", "my_strdup (file-local, body)"],
+          loops=_c13_loops(_nested, _m), lib=(), kind="proof", defines=(["-DWITH_MANIFEST"] if _m else []) + _C13_DBG, drop_bodies=["__CPROVER_file_local_transclude_c_my_strdup"],
+          functions=["mmd_transclude_source"],
           callees={"recursive call": "its own contract (--enforce-contract-rec): requires checked at the call site",
                    "strstr/strcmp/strncmp/strncpy/strlen/strcpy": "content-free contract stubs (any result; strcmp records which stack / manifest entry it was given and what it answered)",
                    "d_string_*": "length-only contract stubs restating the C19 length arithmetic (erase, insert exact; append any length); objects come from a ghost arena",
                    "stack_new/push/pop/peek_index/free": "contract stubs (C18 contracts; capacity symbolic, growth abstracted)",
-                   "path_from_dir_base, split_path_file, is_separator, add_trailing_sep, scan_file, mmd_engine_*": "contract stubs (opaque objects; scan_file is the guard checkpoint)"},
+                   "my_strdup": "contract stub (fresh string); body removed from the compiled transclude.c object", "path_from_dir_base, split_path_file, is_separator, add_trailing_sep, scan_file, mmd_engine_*": "contract stubs (opaque objects; scan_file is the guard checkpoint)"},
           small=["-DDSMAX=40", "-DCAPMAX=3"], min_obligations=100, timeout=900, cost=60,
           assumptions=["string contents abstracted: every comparison / search result is possible, so every document, file system and include graph is covered",
                        "stack and manifest hold at most 2^20 entries (int loop counters), string lengths at most 2^32, one candidate path, one file buffer and one engine alive at a time per activation (model capacity, asserted)",
                        "buffer growth (realloc inside d_string_insert / stack_push) is not modelled here: capacities are symbolic and executions that outgrow them are covered by a larger capacity; "
                        "strings have no bytes in this unit (safety of byte accesses is the marker-buffer unit's subject; here 'inside the string' is obligation (P) over offsets)", NOFAIL]
-                      + (["my_strdup's malloc inside the marker loop rules out a loop contract on it in CBMC 6.11 (DFCC forbids allocation in contract loops): the marker loop is unwound "
-                          "and obligation (T) is asserted by the strstr stub at every search"] if _m else []))
+                      + ["my_strdup (static, strlen+malloc+strcpy) is replaced by a contract stub returning a fresh string: CBMC 6.11 DFCC forbids allocation inside a loop that carries a loop contract"])
